@@ -146,6 +146,9 @@ type Env struct {
 	// Yield, when set, is called at every seam before the call is served
 	// (multi-task engines park here).
 	Yield func(kind, name string)
+	// Sub, when set, serves operators of kind "sub": a re-entrant call into
+	// the library from inside a callback.
+	Sub func() interface{}
 }
 
 func NewEnv(ops map[string]*OpSpec, p *Plan) *Env {
@@ -269,6 +272,13 @@ func (e *Env) CallOp(name string, args []interface{}) (interface{}, error) {
 		e.Fired["op_error"]++
 	case spec.Kind == "now":
 		c.Res = e.Plan.Clock
+	case spec.Kind == "sub":
+		if e.Sub != nil {
+			e.Fired["reentrant_eval"]++
+			c.Res = e.Sub()
+		} else {
+			c.Res = int64(0)
+		}
 	default:
 		c.Res = Mix(spec, args)
 	}
@@ -335,6 +345,10 @@ func (f *SimFetcher) Cached(k eval.VariableKey, s string) bool {
 type OpHost struct {
 	Specs      map[string]*OpSpec
 	CompileEnv *Env
+	// Pure: compile-time calls (no Ctx) are served without any Env, log or
+	// yield — used where several tasks compile at once under the race
+	// detector and the harness must not share mutable state of its own.
+	Pure bool
 }
 
 func (h *OpHost) envOf(ctx *eval.Ctx) *Env {
@@ -351,6 +365,20 @@ func (h *OpHost) envOf(ctx *eval.Ctx) *Env {
 
 func (h *OpHost) Operator(name string) eval.Operator {
 	return func(ctx *eval.Ctx, params []eval.Value) (eval.Value, error) {
+		if ctx == nil && h.Pure {
+			spec := h.Specs[name]
+			args := make([]interface{}, len(params))
+			for i, p := range params {
+				args[i] = p
+			}
+			switch spec.Kind {
+			case "fail":
+				return nil, &SimErr{Kind: "op_error", What: name}
+			case "now", "sub":
+				return int64(0), nil
+			}
+			return Mix(spec, args), nil
+		}
 		env := h.envOf(ctx)
 		args := make([]interface{}, len(params))
 		for i, p := range params {
